@@ -423,7 +423,10 @@ def afterPre (a : Actor) (supOk : Bool) (r : Res) : M :=
   | .ok =>
     match (if a.isLocal then none else a.wantSup) with   -- a thread-local actor was linked by `opSpawn`
     | some p =>
-      if Status.draining.rank ≤ a.status.rank || !supOk then failSpawn a .nolink
+      -- `try_link_starting` (repo fix ee38a9c): the child is refused only when it is already `>= Stopping`;
+      -- a `drain()` during `pre_start` (status `Draining`) no longer fails the start — the actor is linked,
+      -- runs its loop, handles its backlog and exits "Drained"
+      if Status.stopping.rank ≤ a.status.rank || !supOk then failSpawn a .nolink
       else andThen (doLink a p) fun a =>
         ({ a with notifyOnCancel := true, phase := .ready, woken := true }, [.ev (.spawnRet .ok)])
     | none => ({ a with notifyOnCancel := true, phase := .ready, woken := true }, [.ev (.spawnRet .ok)])
